@@ -25,7 +25,9 @@ THEOREMS = [
 ]
 RULE = ("1-2 base-less registries (both flavours) over a generated interface/class world; keys come in "
         "families sharing a required prefix and differing in provided / name / last required; values 1..6 "
-        "with equal-but-distinct twins (1,2) (3,4) (5,6); a case is non-trivial when it contains an overwrite "
+        "with equal-but-distinct twins (1,2) (3,4) (5,6), values 3 and 6 FALSY (__bool__); every cached lookup "
+        "entry point is warmed through a key before it is overwritten (mid-history and before the replay "
+        "stream); a case is non-trivial when it contains an overwrite "
         "or a twin/identical re-registration or a removal with a surviving sibling or a rebuild; distinct = "
         "distinct (first 14 op kinds, #rebuilds, #live at end) signature")
 TRUSTED_BASE = ["shared registry model Model/Adapter.v + Model/Lookup.v + Model/RegSys.v (nested dictionaries "
@@ -153,13 +155,17 @@ class Gen:
             out.append(self.rng.choice(cand))
         return out
 
-    def q_lookup(self, r):
+    def q_lookup(self, r, key=None):
         rng = self.rng
-        if self.akeys and rng.random() < 0.9:
-            req0, p0, n0 = rng.choice(self.akeys)
-            req = self.look_req(req0)
+        if key is not None or (self.akeys and rng.random() < 0.9):
+            req0, p0, n0 = key if key is not None else rng.choice(self.akeys)
+            exact = [_conv(x) for x in req0]
+            if key is not None and rng.random() < 0.5 and all(x in self.look_pool for x in exact):
+                req = exact
+            else:
+                req = self.look_req(req0)
             up = [x for x in self.rel.ancestors(p0) if x in self.ifaces or x == 0]
-            p = p0 if rng.random() < 0.45 else rng.choice(up)
+            p = p0 if rng.random() < (0.7 if key is not None else 0.45) else rng.choice(up)
             n = n0
         else:
             req = [rng.choice(self.look_pool) for _ in range(rng.choice([0, 1, 2]))]
@@ -172,6 +178,24 @@ class Gen:
         if c < 0.92 and len(req) == 1:
             return ["lookup1", r, req[0], p, n]
         return ["names", r, req, p]
+
+    def through(self, r, key):
+        """every cached lookup entry point, resolving through [key]"""
+        q = self.q_lookup(r, key)
+        while q[0] != "lookup":
+            q = self.q_lookup(r, key)
+        _k, _r, req, p, n = q
+        out = [q, ["lookupAll", r, req, p], ["names", r, req, p]]
+        if len(req) == 1:
+            out.append(["lookup1", r, req[0], p, n])
+        out.append(["subscriptions", r, req, p])
+        return out
+
+    def other_value(self, old):
+        v = _twin(old) if self.rng.random() < 0.4 else _value(self.rng)
+        while v == old:
+            v = _value(self.rng)
+        return v
 
     def q_subs(self, r):
         rng = self.rng
@@ -318,6 +342,21 @@ class Gen:
                 self.ops.append(["lookup", r, self.look_req([rq]), 0, n])
                 self.ops.append(["subscriptions", r, self.look_req([rq]), 0])
             self.tags.add("ambiguous")
+        elif c < 0.91 and used:
+            # warm every cache through a live key, overwrite that key with another object, ask again,
+            # then (often) rebuild and ask once more: no other mutation in between
+            live = [k for k in used if (r, self.canon(k)) in self.cur]
+            if live:
+                k = rng.choice(live)
+                batch = self.through(r, k)
+                self.ops.extend(batch)
+                self.register(r, k, self.other_value(self.cur[(r, self.canon(k))]))
+                self.ops.extend([list(q) for q in batch])
+                if rng.random() < 0.6:
+                    self.ops.append(["rebuild", r])
+                    self.ops.extend([list(q) for q in batch])
+                    self.tags.add("rebuild")
+                self.tags.add("warm-overwrite")
         else:
             self.ops.append(self.query(r))
 
@@ -338,10 +377,24 @@ class Gen:
                 qs.append(["subscribed", r0, list(k[0]), k[1], v])
         qs.append(["allRegistrations", r0])
         qs.append(["allSubscriptions", r0])
-        for _ in range(8):
-            qs.append(self.q_lookup(r0))
+        live = [k for k in self.akeys if (r0, self.canon(k)) in self.cur]
+        rng.shuffle(live)
+        over = live[:rng.choice([1, 1, 2, 3])] if rng.random() < 0.65 else []
+        looks = []
+        for k in over:
+            looks.extend(self.through(r0, k))
+        while len(looks) < 8:
+            looks.append(self.q_lookup(r0))
         for _ in range(4):
-            qs.append(self.q_subs(r0))
+            looks.append(self.q_subs(r0))
+        if over:
+            # warm the caches with exactly the final lookups, overwrite, and go straight to the
+            # replay stream (no other mutation in between)
+            self.ops.extend([list(q) for q in looks])
+            for k in over:
+                self.register(r0, k, self.other_value(self.cur[(r0, self.canon(k))]))
+            self.tags.add("warm-overwrite")
+        qs.extend(looks)
         case = dict(self.world)
         case["ops"] = self.ops
         case["replay"] = {"reg": r0, "queries": qs}
@@ -431,6 +484,7 @@ def replay_text(case, obs, mode):
          "    def __eq__(self, o): return isinstance(o, V) and o.veq == self.veq",
          "    def __ne__(self, o): return not self == o",
          "    def __hash__(self): return hash(self.veq)",
+         "    def __bool__(self): return self.vid % 3 != 0      # V3 and V6 are falsy",
          "    def __repr__(self): return 'V%d' % self.vid",
          "S = {0: Interface}"]
     for i, s in enumerate(case["specs"]):
